@@ -75,6 +75,12 @@ def assemble_rtf(
             end_idx -= 1
 
         part = lines[start_idx:end_idx]
+        if start_idx > 0:
+            # Figure documents continue on the line that closes the font table
+            # (e.g. "}{\\colortbl;"): keep what follows the closing brace.
+            closing_line = lines[start_idx - 1].strip()
+            if closing_line.startswith("}") and len(closing_line) > 1:
+                part = [closing_line[1:] + "\n"] + part
         processed_parts.extend(part)
 
         if i < len(rtf_contents) - 1:
